@@ -45,9 +45,12 @@ def run(ctx):
     # 2. offset representation
     fs = F.fn("ToUnicodeCMap::from_sections")
     pc = F.fn("ToUnicodeCMap::put_char")
-    for fn, b, src in (("from_sections", fs, "start"), ("put_char", pc, "code")):
-        aggs = [(bi, s) for bi, si, s in b.stmts() if s.get("rv") and s["rv"]["k"] == "agg" and s["rv"]["kind"].get("var") == "UTF16CodePoint"]
-        ok = len(aggs) == 1 and re.match(r"^wrapping_sub\(.* as u32,%s\)$" % src, b.oname(aggs[0][1]["rv"]["ops"][0], 5)) is not None
+    for fn, b0, src in (("from_sections", fs, "start"), ("put_char", pc, "code")):
+        # the function itself or the private helper it builds the target with
+        aggs = [(x, s) for x in ([b0] if fn == "from_sections" else lib.local_scope(F, b0)) for bi, si, s in x.stmts()
+                if s.get("rv") and s["rv"]["k"] == "agg" and s["rv"]["kind"].get("var") == "UTF16CodePoint"]
+        b = b0
+        ok = len(aggs) == 1 and re.match(r"^wrapping_sub\(.* as u32,%s\)$" % src, aggs[0][0].oname(aggs[0][1]["rv"]["ops"][0], 5)) is not None
         ctx.ob(R, "offset-stored|%s" % fn, ok, "%s stores single-unit targets as UTF16CodePoint { offset: target - %s }" % (fn, src), b.where(),
                what="%s no longer stores single-unit targets as a translation-invariant offset (UTF16CodePoint): such ranges are then interpreted relative to wherever the interval map makes them start" % fn)
     gcl = F.with_closures(g)
@@ -61,8 +64,41 @@ def run(ctx):
         ok = any(re.match(r"^Lt\(end,start\)$", gd) and tr is False for gd, tr in gs)
         ctx.ob("R-GUARD", "end-not-before-start|%d" % put.index(c), ok, "put is dominated by !(end < start)", fs.where(c.ln), what="from_sections inserts a range without rejecting end < start first (RangeInclusiveMap::insert panics on it)")
     # 4. file order, overwrite
-    ins = [c for c in F.fn("ToUnicodeCMap::put").calls if re.search(r"rangemap::.*::insert$", c.fn or "")]
-    ctx.ob(R, "last-definition-wins", len(ins) == 1, "put inserts into the interval map (insert overwrites what it overlaps)", F.fn("ToUnicodeCMap::put").where(), what="put no longer inserts with overwrite semantics")
+    pb_ = F.fn("ToUnicodeCMap::put")
+    pscope = lib.local_scope(F, pb_)
+    ins = [c for x in pscope for c in x.calls if re.search(r"rangemap::.*::insert$", c.fn or "")]
+    other = [c for x in pscope for c in x.calls if re.search(r"rangemap::.*::(remove|clear|gaps|split_off)$", c.fn or "")]
+    ctx.ob(R, "last-definition-wins", len(ins) >= 1 and not other, "put inserts into the interval map (insert overwrites what it overlaps)", pb_.where(), what="put no longer inserts with overwrite semantics")
+    # 4a. what is stored does not depend on where the interval starts: the last unit of a multi-unit target is stored relative to
+    # code 0 (wrapping_sub of the range's first code) and read back with wrapping_add of the code; an array target is entered one
+    # code at a time (an interval `code..=code`), because an index into it would be relative to the interval
+    subs = [x.oname(c.args[1], 4) for x in pscope for c in x.calls if re.search(r"num::<impl u16>::wrapping_sub$", c.fn or "")]
+    okrel = any(re.search(r" as u16$", t) for t in subs)
+    adds = [x.oname(c.args[1], 4) for x in gcl for c in x.calls if re.search(r"num::<impl u16>::wrapping_add$", c.fn or "")]
+    okadd = any(re.match(r"^\w+ as u16$", t) for t in adds)
+    ctx.ob(R, "multi-unit-target-relative-to-code-0", okrel and okadd, "put stores last - first code (%s), get returns last + code (%s)" % (subs, adds), pb_.where(),
+           what="a multi-unit bfrange target is not stored relative to code 0 and read back by adding the code (stored with %s, read with %s): the value depends on where the interval map makes the interval start" % (subs, adds))
+    single = []
+    for x in pscope:
+        for c in x.calls:
+            if re.search(r"RangeInclusive::<.*>::new$", c.fn or "") and len(c.args) == 2 and x.oname(c.args[0], 3) == x.oname(c.args[1], 3) and any(c.bb in bl for bl in x.loops().values()):
+                single.append(c)
+    # ... and each element is entered for ITS code: the interval, the offset of a one-unit element (char_target) and the
+    # re-basing of a multi-unit element (stored) all take the same code
+    okcode, howcode = True, []
+    for c in single:
+        xb = [x for x in pscope if c in x.calls][0]
+        code = xb.oname(c.args[0], 3)
+        for c2 in xb.calls:
+            if c2.local and re.search(r"ToUnicodeCMap::(stored|char_target)$", c2.cname) and any(c2.bb in bl and c.bb in bl for bl in xb.loops().values()):
+                howcode.append("%s(%s, ..)" % (c2.cname.rsplit("::", 1)[-1], xb.oname(c2.args[0], 3)))
+                if xb.oname(c2.args[0], 3) != code:
+                    okcode = False
+    ctx.ob(R, "array-element-entered-for-its-own-code", okcode, "interval %s, %s" % ([x_.oname(c.args[0], 3) for c in single for x_ in pscope if c in x_.calls], howcode), pb_.where(),
+           what="an element of an array bfrange target is entered with a code other than its own (%s): elements after the first decode to a shifted value" % howcode)
+    arr_stored = [s_ for x in pscope + [fs] for bi, si, s_ in x.stmts() if s_.get("rv") and s_["rv"]["k"] == "agg" and s_["rv"]["kind"].get("var") == "ArrayOfHexStrings"]
+    ctx.ob(R, "array-target-entered-per-code", bool(single) or not arr_stored, "an array target is entered as one `code..=code` interval per element (%d such insertion)" % len(single), pb_.where(),
+           what="an array bfrange target is stored as one value for its whole range: its elements can only be found by an index relative to the interval's start, which the interval map changes when it merges or splits intervals")
     it = [c for c in fs.calls if (c.fn or "").endswith("IntoIterator::into_iter") and "cmap_sections" in fs.oname(c.args[0], 3)]
     rev = [c for c in fs.calls if re.search(r"Iterator::rev$|::reverse$|sort", c.fn or "")]
     ctx.ob(R, "sections-in-file-order", len(it) == 1 and not rev, "sections are processed in the order the parser returned them", fs.where(), what="sections are no longer processed in file order")
